@@ -59,7 +59,7 @@ class Rig(object):
     """One real Type 4 tag object on a simulated card; records the C12 events."""
 
     def __init__(self, typ="A", fsci=8, fwi=4, max_send=256, max_recv=256, rchunk=None, fates=(), wtx_at=(),
-                 wtxm=2):
+                 wtxm=2, ats="abc"):
         self.ev = []
         self.fates = list(fates)
         self.wtx_at = set(wtx_at)
@@ -70,7 +70,10 @@ class Rig(object):
         self.cur = None
         self.nop = 0
         self.wtxm = wtxm
-        self.card = SimPicc(self._applet, fsci=fsci, fwi=fwi, rchunk=rchunk, wtxm=wtxm, typ=typ)
+        self.card = SimPicc(self._applet, fsci=fsci, fwi=fwi, rchunk=rchunk, wtxm=wtxm, typ=typ, ats=ats)
+        ann_fsci, ann_fwi = fsci, fwi
+        fsci, fwi = self.card.fsci, self.card.fwi      # what the ATS (or the defaults for absent bytes) announces
+        self.card_delay = None                          # the card uses its full announced FWT (WTXM x FWT after S(WTX))
         self.max_send_data_size = max_send
         self.max_recv_data_size = max_recv
         self.fwt = 4096 / 13.56E6 * 2 ** fwi
@@ -86,8 +89,8 @@ class Rig(object):
         if self.tag is None or not self.card.active:
             raise HarnessError("activation failed")
         self.const = dict(miu=self.miu, rmiu=self.card.rchunk, fsc=fsc, nRetry=min(int(1 / self.fwt), 5))
-        self.script = dict(typ=typ, fsci=fsci, fwi=fwi, max_send=max_send, max_recv=max_recv, rchunk=rchunk,
-                           fates=list(fates), wtx_at=sorted(wtx_at), wtxm=wtxm, ops=[])
+        self.script = dict(typ=typ, fsci=ann_fsci, fwi=ann_fwi, max_send=max_send, max_recv=max_recv, rchunk=rchunk,
+                           fates=list(fates), wtx_at=sorted(wtx_at), wtxm=wtxm, ats=ats, ops=[])
 
     # ---- card applet: counts executions (the card's own list is card.executed) -------------------
     def _applet(self, cmd):
@@ -164,6 +167,11 @@ class Rig(object):
             self.resume = ev
             raise nfc.clf.TimeoutError("mute card")
         f = self._fate()
+        # the card answers at the end of its announced FWT (WTXM x FWT when an S(WTX) response was received): a reader
+        # that waits less than that does not get the block
+        delay = self.wtxm * self.fwt if d["t"] == "WTX" else self.fwt
+        if f == DELIVER and timeout < delay - 1e-12:
+            f = LOSE
         ev = dict(e="ToPcd", f=f, nx="?")
         self.ev.append(ev)
         self.resume = ev
@@ -230,7 +238,7 @@ class Rig(object):
 
 def run_script(sc, tid):
     rig = Rig(sc.get("typ", "A"), sc["fsci"], sc["fwi"], sc.get("max_send", 256), sc.get("max_recv", 256),
-              sc.get("rchunk"), sc.get("fates", ()), sc.get("wtx_at", ()), sc.get("wtxm", 2))
+              sc.get("rchunk"), sc.get("fates", ()), sc.get("wtx_at", ()), sc.get("wtxm", 2), sc.get("ats", "abc"))
     for op in sc["ops"]:
         if op[0] == "ping":
             rig.ping()
@@ -267,7 +275,7 @@ def all_cfgs():
 def base_script(cfg, ops, **kw):
     typ, fsci, fwi, ms, mr, rchunk = cfg
     d = dict(typ=typ, fsci=fsci, fwi=fwi, max_send=ms, max_recv=mr, rchunk=rchunk, ops=ops, fates=[], wtx_at=[],
-             wtxm=kw.get("wtxm", 2))
+             wtxm=kw.get("wtxm", 2), ats="abc")
     d.update(kw)
     return d
 
@@ -325,6 +333,39 @@ def gen_scripts(tier, seed):
                             for k in ((LOSE, CORRUPT) if wdirs[m] == "C" else (LOSE, CORRUPT, EMPTY)):
                                 scripts.append(base_script(cfg, ops, wtx_at=[n], wtxm=wm,
                                                            fates=[DELIVER] * m + [k]))
+    # (1b) every ATS layout (TA(1)/TB(1)/TC(1) present or absent, TL only) x FWI: FWT, time-outs and the retry budget
+    #      must be the announced ones; one clean run, every single lost block, one S(WTX)
+    ATS = ["abc", "ab", "ac", "bc", "a", "b", "c", "", "none"]
+    for ai, ats in enumerate(ATS):
+        for fwi in ((9, 11, 13) if quick else (0, 4, 9, 10, 11, 12, 14)):
+            cfg = ("A", (ai + fwi) % 9, fwi, 256, 256, 11)
+            miu = FSC_TABLE[2 if ats == "none" else cfg[1]] - 3
+            ops = [["apdu", miu + 1, 23, "send_apdu"], ["apdu", 5, 2, "transceive"]]
+            scripts.append(base_script(cfg, ops, ats=ats))
+            dirs = dirs_of(run_script(base_script(cfg, ops, ats=ats), "probe"))
+            for n, d in enumerate(dirs):
+                if quick and (n + ai + fwi) % 3:
+                    continue
+                scripts.append(base_script(cfg, ops, ats=ats, fates=[DELIVER] * n + [LOSE]))
+                if d == "C":
+                    scripts.append(base_script(cfg, ops, ats=ats, wtx_at=[n], wtxm=10))
+    # (1c) S(WTX) at every turn of the card in command chaining, response chaining and after a retransmission, with
+    #      every fault on the S(WTX) request, the S(WTX) response and the block that follows: what is sent after a
+    #      fault must be the block of the state machine (R(NAK) / R(ACK)), never the S(WTX) response again
+    for ci, cfg in enumerate([("A", 1, 10, 256, 256, 6), ("B", 2, 11, 256, 256, 9)] if quick else
+                             [("A", 1, 10, 256, 256, 6), ("B", 2, 11, 256, 256, 9), ("A", 0, 9, 256, 256, 4),
+                              ("A", 8, 13, 256, 256, 50)]):
+        miu = FSC_TABLE[cfg[1]] - 3
+        ops = [["apdu", miu + 2, 3 * cfg[5] - 1, "transceive"]]
+        dirs = dirs_of(run_script(base_script(cfg, ops), "probe"))
+        for n, d in enumerate(dirs):
+            if d != "C":
+                continue
+            wdirs = dirs_of(run_script(base_script(cfg, ops, wtx_at=[n]), "probe"))
+            for m in range(n + 1, min(n + 4, len(wdirs))):
+                for k in ((LOSE, CORRUPT) if wdirs[m] == "C" else (LOSE, CORRUPT, EMPTY)):
+                    for burst in (1, 2):
+                        scripts.append(base_script(cfg, ops, wtx_at=[n], fates=[DELIVER] * m + [k] * burst))
     # (2) random: several operations, several faults, WTX, presence checks in between
     nrand = 500 if quick else 8000
     for j in range(nrand):
